@@ -1329,6 +1329,47 @@ fn c13_gen_ack_flood(seed: u64, run: u64, thorough: bool) -> Plan {
     plan
 }
 
+/// A backlogged sender at a low ceiling (its credit is overdrawn most of the time) that steps
+/// every 1-20 ms while its connected peer sends it a sync frame before almost every step: each
+/// asks for an acknowledgement in reply, and the replies have to wait for credit like anything
+/// else.
+fn c13_gen_sync_flood(seed: u64, run: u64, thorough: bool) -> Plan {
+    let mut plan = c06_gen_hostile(seed, run, thorough, true);
+    plan.property = "C13".into();
+    plan.scenario = "a_sync_flood".into();
+    let mut r = Rng::keyed(&[seed, run, 0xc135]);
+    let ceiling = *r.pick(&[1472u32, 1472, 3000, 8000, 30_000]);
+    if let EndpointKind::Hc { spec, .. } = &mut plan.endpoints[0].kind {
+        spec.tx_bandwidth_limit = ceiling;
+        spec.tx_alloc_limit = spec.tx_alloc_limit.max(200_000);
+    }
+    let latency = r.range(200, 50_000);
+    for t in plan.timeline.iter_mut() {
+        if let Op::Link { rule, .. } = &mut t.op {
+            rule.latency_us = latency;
+        }
+    }
+    let horizon = r.range(8, 20) * 1_000_000;
+    plan.timeline.retain(|t| t.t_us <= horizon && !matches!(t.op, Op::Step { ep: 0 } | Op::Flush { ep: 0 } | Op::StepEvery { ep: 0, .. }));
+    plan.push(r.below(10_000), 3, Op::StepEvery { ep: 0, period_us: r.range(1_000, 20_000), until_us: horizon });
+    plan.end_us = horizon;
+    // a backlog that lasts the whole run at this ceiling
+    let n_pk = (ceiling as u64 * 25 / 1000).max(30);
+    let mut w = Workload::sample(&mut r, n_pk, 3000);
+    w.lead_pattern_p = 0.0;
+    w.sends(&mut r, &mut plan, 0, None, 100_000, 1_000_000, 0);
+    plan.params.insert("hostile_start_us".into(), r.range(2_000_000, 4_000_000) as f64);
+    plan.params.insert("hostile_focus".into(), 6.0);
+    plan.params.insert("hostile_max".into(), r.range(20_000, 60_000) as f64);
+    plan.sort();
+    plan
+}
+fn c13_adv_sync(plan: &Plan) -> Option<Box<dyn Adversary>> {
+    let mut h = Hostile::new(plan, vec![(0, 1)]);
+    h.set_rate(0.9, 2);
+    Some(Box::new(h))
+}
+
 fn c13_adv(plan: &Plan) -> Option<Box<dyn Adversary>> {
     let mut h = Hostile::new(plan, vec![(0, 1)]);
     h.set_rate(1.0, 2500);
@@ -1342,6 +1383,8 @@ pub fn c13() -> CheckDef {
             what: "real Client/Server: ceiling = min(local max_send_rate, peer max_receive_rate) from the two endpoint configurations" },
         Family { name: "a_ack_flood", world: "A", weight: 1, gen: c13_gen_ack_flood, oracles: c13_oracles, adversary: Some(c13_adv), keep_workload: false, custom: None,
             what: "a sender with traffic of its own and a ceiling of 1472 B/s..1 MB/s whose connected peer floods it with empty data frames 32 ids apart (every frame opens a new acknowledgement group: hundreds of groups owed per flush) and acknowledges some of its frames; link delays up to 0.4 s so that the burst allowance ceiling x RTT has some size" },
+        Family { name: "a_sync_flood", world: "A", weight: 1, gen: c13_gen_sync_flood, oracles: c13_oracles, adversary: Some(c13_adv_sync), keep_workload: false, custom: None,
+            what: "a backlogged sender at a ceiling of 1472 B/s..30 kB/s that steps every 1-20 ms while its connected peer sends it a sync frame before almost every step (each asks for an acknowledgement in reply) and acknowledges some of its frames" },
         Family { name: "a_rate", world: "A", weight: 6, gen: c13_gen, oracles: c13_oracles, adversary: None, keep_workload: false, custom: None,
             what: "ceilings 1472 B/s..50 MB/s on either side, backlogs of hundreds to thousands of packets, cadences from several flushes per step to seconds between steps, pauses, loss and feedback patterns; every window of data/sync/ack frames is checked against ceiling x (duration + largest RTT estimate held) + 1472" }],
         panic_is_violation: no_panics,
